@@ -3,5 +3,6 @@ NEXT Next
 CONSTANTS
   FlatLen = 4
   Mode = "anon"
+  Small = FALSE
 INVARIANT ImplSatisfiesPropertyAll
 CHECK_DEADLOCK FALSE
